@@ -35,6 +35,7 @@ verus! {
 //@include spec/grammar_view.rs
 //@include spec/roundtrip.rs
 //@include spec/roundtrip_lex.rs
+//@include spec/roundtrip_closed.rs
 //@include spec/indep.rs
 //@include spec/subst.rs
 //@include spec/rewrites.rs
